@@ -179,7 +179,14 @@ func UnparseFeatureID(id b6.FeatureID, abbreviate bool) string {
 	if abbreviate {
 		for _, alias := range aliases {
 			if alias.Namespace == id.Namespace && (alias.Type == b6.FeatureTypeInvalid || alias.Type == id.Type) {
-				return alias.ToString(&alias, id)
+				// The postcode and ONS aliases can only represent some of the
+				// values in their namespace: fall back to the canonical form
+				// unless the abbreviated token parses back to the same ID.
+				token := alias.ToString(&alias, id)
+				if parsed, err := alias.FromString(&alias, token); err == nil && parsed == id {
+					return token
+				}
+				break
 			}
 		}
 	}
